@@ -356,6 +356,81 @@ mod oracle {
         }
     }
 
+    /// a conditional that OWNS its tape and its log (nothing shared through Rc): what the chain's own `target` has seen
+    /// and how far its tape has advanced is read back from `chain.target` after each step
+    #[derive(Clone)]
+    struct OwnedTape {
+        log: Vec<(usize, Vec<u64>)>,
+        answers: Vec<f64>,
+        next: usize,
+    }
+    impl Conditional<f64> for OwnedTape {
+        fn sample(&mut self, i: usize, given: &[f64]) -> f64 {
+            self.log.push((i, given.iter().map(|v| v.to_bits()).collect()));
+            let a = self.answers[self.next % self.answers.len()];
+            self.next += 1;
+            a
+        }
+    }
+    fn check_owned_sweep(chain: &mut GibbsMarkovChain<f64, OwnedTape>, tag: &str) {
+        let before: Vec<u64> = chain.current_state.iter().map(|v| v.to_bits()).collect();
+        let d = before.len();
+        let (log0, next0) = (chain.target.log.len(), chain.target.next);
+        let tape = chain.target.answers.clone();
+        let after: Vec<u64> = chain.step().iter().map(|v| v.to_bits()).collect();
+        let fail = |msg: String| -> ! { witness(format!("{{\"oracle\":\"c05\",\"case\":\"{tag}\",\"dim\":{d},\"tape\":\"{tape:?}\",\"what\":\"{msg}\"}}")) };
+        let calls = chain.target.log[log0.min(chain.target.log.len())..].to_vec();
+        if calls.len() != d || chain.target.next != next0 + d {
+            fail(format!("the chain's conditional was asked {} times and its tape advanced by {} in one step (want {d})", calls.len(), chain.target.next as i64 - next0 as i64));
+        }
+        let mut seen = vec![false; d];
+        let mut cur = before.clone();
+        for (k, (i, given)) in calls.iter().enumerate() {
+            if *i >= d || seen[*i] {
+                fail(format!("call {k} asks coordinate {i} (out of range or twice)"));
+            }
+            seen[*i] = true;
+            if *given != cur {
+                fail(format!("call {k} (coordinate {i}) did not see the chain's current state with the earlier answers of this step"));
+            }
+            cur[*i] = tape[(next0 + k) % tape.len()].to_bits();
+        }
+        if cur != after || chain.current_state.iter().map(|v| v.to_bits()).collect::<Vec<u64>>() != after {
+            fail("final state is not the old state with every coordinate replaced by its answer".to_string());
+        }
+    }
+    /// C05 with answers that are NaN / infinite / repeat the present value (so that a sweep reproduces its start),
+    /// and with same-length writes to the public state between steps
+    #[test]
+    fn oracle_c05_owned_conditional_special_answers_and_state_writes() {
+        let tapes: Vec<Vec<f64>> = vec![
+            vec![f64::NAN, 1.0, 2.0], vec![f64::NAN], vec![5.0], vec![0.0, -0.0], vec![1.0, 1.0, 2.0, 2.0, 1.0], vec![f64::INFINITY, 3.0, f64::NEG_INFINITY, f64::NAN, 3.0],
+            vec![7.0, 7.0, 7.0, 8.0],
+        ];
+        for d in 1..=12usize {
+            for tape in &tapes {
+                let init: Vec<f64> = (0..d).map(|i| tape[i % tape.len()]).collect();
+                let mut chain = GibbsMarkovChain::new(OwnedTape { log: vec![], answers: tape.clone(), next: 0 }, &init);
+                check_owned_sweep(&mut chain, "fresh");
+                check_owned_sweep(&mut chain, "second step");
+                check_owned_sweep(&mut chain, "third step");
+                // warm start: the whole state overwritten with a state of the same length
+                chain.current_state = (0..d).map(|i| 100.0 + i as f64).collect();
+                check_owned_sweep(&mut chain, "same-length state assigned after steps");
+                // one coordinate edited in place
+                chain.current_state[d - 1] = -55.5;
+                check_owned_sweep(&mut chain, "one coordinate edited after steps");
+                chain.current_state[0] = f64::NAN;
+                check_owned_sweep(&mut chain, "NaN written into the state");
+                // a state that the next sweep reproduces exactly
+                let n0 = chain.target.next;
+                chain.current_state = (0..d).map(|k| tape[(n0 + k) % tape.len()]).collect();
+                check_owned_sweep(&mut chain, "sweep that reproduces its starting state");
+                check_owned_sweep(&mut chain, "step after a sweep that reproduced its starting state");
+            }
+        }
+    }
+
     // ---------------------------------------------------------------- C09 ------------
     /// a deterministic chain that counts its transitions: state = [steps, 10*id + steps]
     #[derive(Clone)]
@@ -2133,6 +2208,95 @@ mod oracle {
         }
     }
 
+    /// C16: a category of weight zero is stored with probability exactly zero (logp -inf, excluded by sample), every
+    /// stored probability is a number in [0, 1], for f32 and f64, zeros at any position, weights whose quotients round
+    #[test]
+    fn oracle_c16_zero_weights_stay_zero() {
+        fn one<T: num_traits::Float + std::ops::AddAssign + std::fmt::Debug>(w: Vec<T>, ty: &str)
+        where rand::distr::StandardUniform: rand::distr::Distribution<T> {
+            let cat = Categorical::<T>::new(w.clone());
+            for (i, wi) in w.iter().enumerate() {
+                let p = cat.probs[i];
+                if !(p >= T::zero() && p <= T::from(1.0001).unwrap()) {
+                    witness(format!("{{\"oracle\":\"c16\",\"type\":\"{ty}\",\"weights\":\"{w:?}\",\"what\":\"stored probability {i} is {p:?}, not a number in [0, 1]\"}}"));
+                }
+                if *wi == T::zero() && (p != T::zero() || cat.logp(i) != T::neg_infinity()) {
+                    witness(format!("{{\"oracle\":\"c16\",\"type\":\"{ty}\",\"weights\":\"{w:?}\",\"what\":\"category {i} has weight zero but stored probability {p:?} and logp {:?}\"}}", cat.logp(i)));
+                }
+                if *wi > T::zero() && !(cat.logp(i) <= T::from(1e-4).unwrap()) {
+                    witness(format!("{{\"oracle\":\"c16\",\"type\":\"{ty}\",\"weights\":\"{w:?}\",\"what\":\"logp({i}) = {:?} is not a log-probability\"}}", cat.logp(i)));
+                }
+            }
+        }
+        let bases: [f64; 9] = [0.1, 0.3, 0.7, 1.0 / 3.0, 1.1, 0.2, 1e-3, 7.0, 0.6];
+        for &b in &bases {
+            for n in 1..=24usize {
+                for zero_at in [0usize, n / 2, n] {
+                    // n equal weights b and one zero weight at the front, in the middle or at the end
+                    let mut w64 = vec![b; n];
+                    w64.insert(zero_at, 0.0);
+                    one::<f64>(w64.clone(), "f64");
+                    one::<f32>(w64.iter().map(|v| *v as f32).collect(), "f32");
+                    // graded weights b, 2b, 3b, .. with two zeros
+                    let mut g64: Vec<f64> = (0..n).map(|i| b * (1 + i % 5) as f64).collect();
+                    g64.insert(zero_at, 0.0);
+                    g64.push(0.0);
+                    one::<f64>(g64.clone(), "f64");
+                    one::<f32>(g64.iter().map(|v| *v as f32).collect(), "f32");
+                }
+            }
+        }
+    }
+    /// C16 for uniform variates right next to a category boundary (the places where rounding of the cumulative sums
+    /// decides): seeds are scanned for a first f32 variate within a few ulps of a boundary of each weight vector
+    #[cfg(feature = "verif-hooks")]
+    #[test]
+    fn oracle_c16_variates_next_to_boundaries() {
+        let mut pats: Vec<Vec<f32>> = Vec::new();
+        for (n, zeros) in [(32usize, vec![23usize]), (32, vec![15, 31]), (24, vec![0, 23]), (17, vec![7, 8, 16]), (9, vec![3, 8]), (40, vec![7, 15, 16, 39]), (12, vec![11])] {
+            for b in [1.0f32, 0.3, 0.7] {
+                let mut w = vec![b; n];
+                for z in &zeros { w[*z] = 0.0; }
+                pats.push(w);
+            }
+        }
+        // boundaries (cumulative sums of the stored probabilities, in index order) of every pattern
+        let cats: Vec<Categorical<f32>> = pats.iter().map(|w| Categorical::<f32>::new(w.clone())).collect();
+        let mut edges: Vec<(u32, usize)> = Vec::new();
+        for (pi, c) in cats.iter().enumerate() {
+            let mut cum = 0.0f32;
+            for p in &c.probs { cum += *p; if cum < 1.0 { edges.push((cum.to_bits(), pi)); } }
+        }
+        edges.sort();
+        let n_seeds: u64 = if std::env::var("VERIF_TIER").map(|t| t == "thorough").unwrap_or(false) { 1 << 24 } else { 1 << 21 };
+        let base = std::env::var("VERIF_SEED").ok().and_then(|s| s.parse::<u64>().ok()).unwrap_or(0).wrapping_mul(1 << 24);
+        let mut tried = 0usize;
+        for s in 0..n_seeds {
+            let seed = base.wrapping_add(s);
+            let r: f32 = SmallRng::seed_from_u64(seed).random();
+            let rb = r.to_bits();
+            let lo = edges.partition_point(|e| e.0 + 4 < rb);
+            let mut j = lo;
+            while j < edges.len() && edges[j].0 <= rb + 4 {
+                let pi = edges[j].1;
+                j += 1;
+                tried += 1;
+                let w = &pats[pi];
+                let mut cat = Categorical::<f32>::with_rng(w.clone(), SmallRng::seed_from_u64(seed));
+                let k = cat.sample();
+                if k >= w.len() || !(cat.probs[k] > 0.0) {
+                    witness(format!("{{\"oracle\":\"c16\",\"weights\":\"{w:?}\",\"seed\":{seed},\"r\":\"{r:e}\",\"what\":\"returned category {k} of probability {:?} for a variate next to a category boundary\"}}", cat.probs.get(k)));
+                }
+                let lo_c: f32 = cat.probs[..k].iter().fold(0.0f32, |a, p| a + *p);
+                let hi_c = lo_c + cat.probs[k];
+                if !(lo_c - 1e-5 <= r && r <= hi_c + 1e-5) {
+                    witness(format!("{{\"oracle\":\"c16\",\"weights\":\"{w:?}\",\"seed\":{seed},\"r\":\"{r:e}\",\"what\":\"category {k} with cumulative bracket [{lo_c}, {hi_c}] does not contain r\"}}"));
+                }
+            }
+        }
+        assert!(tried > 0, "no seed with a variate next to a boundary was found: the scan is vacuous");
+    }
+
     // ---------------------------------------------------------------- C18 ------------
     #[test]
     fn oracle_c18_init_helpers() {
@@ -2207,6 +2371,69 @@ mod oracle {
                     witness(format!("{{\"oracle\":\"c18\",\"n\":{n},\"d\":{d},\"what\":\"init shape\"}}"));
                 }
             }
+        }
+    }
+
+    /// C18, generator-agnostic: (a) the unseeded helper is not a continuation of a seeded call (two `init` results that
+    /// each follow the same seeded call differ), (b) results for different seeds share no position, (c) the entries
+    /// have the moments and the tails of a standard normal (no truncation, no redraw)
+    #[test]
+    fn oracle_c18_independence_and_tails() {
+        use mini_mcmc::core::init;
+        // (a)
+        for (n, d, seed) in [(3usize, 2usize, 42u64), (1, 1, 7), (5, 4, 0)] {
+            let _s1: Vec<Vec<f64>> = init_with_seed(2, 2, seed);
+            let a: Vec<Vec<f64>> = init(n, d);
+            let _s2: Vec<Vec<f64>> = init_with_seed(2, 2, seed);
+            let b: Vec<Vec<f64>> = init(n, d);
+            let _s3: Vec<Vec<f64>> = init_det(2, 2);
+            let c: Vec<Vec<f64>> = init(n, d);
+            let _s4: Vec<Vec<f64>> = init_det(2, 2);
+            let e: Vec<Vec<f64>> = init(n, d);
+            if a == b || c == e {
+                witness(format!("{{\"oracle\":\"c18\",\"n\":{n},\"d\":{d},\"seed\":{seed},\"what\":\"init() called after a seeded helper returns the same positions every time: it continues the seeded stream instead of drawing fresh values\"}}"));
+            }
+            let s: Vec<Vec<f64>> = init_with_seed(n, d, seed);
+            let t: Vec<Vec<f64>> = init(n, d);
+            let s_again: Vec<Vec<f64>> = init_with_seed(n, d, seed);
+            if s != s_again || s == t {
+                witness(format!("{{\"oracle\":\"c18\",\"n\":{n},\"d\":{d},\"seed\":{seed},\"what\":\"a seeded helper and init() interfere with each other\"}}"));
+            }
+        }
+        // (b)
+        for d in [1usize, 2, 5] {
+            for base in [0u64, 41, 1000, u64::MAX - 2] {
+                let outs: Vec<(u64, Vec<Vec<f64>>)> = (0..6u64).map(|k| { let s = base.wrapping_add(k); (s, init_with_seed(6, d, s)) }).collect();
+                for i in 0..outs.len() {
+                    for j in i + 1..outs.len() {
+                        for (ri, row) in outs[i].1.iter().enumerate() {
+                            if let Some(rj) = outs[j].1.iter().position(|o| o == row) {
+                                witness(format!("{{\"oracle\":\"c18\",\"d\":{d},\"seed_a\":{},\"seed_b\":{},\"what\":\"position {ri} for seed_a equals position {rj} for seed_b: results for different seeds are not independent draws\"}}", outs[i].0, outs[j].0));
+                            }
+                        }
+                    }
+                }
+            }
+        }
+        // (c) 46 requests of 255 x 255 (about 3 million entries): |z| > 4.5 has probability 6.8e-6 (about 20 expected)
+        let (mut cnt, mut s1, mut s2, mut s4, mut far) = (0u64, 0.0f64, 0.0f64, 0.0f64, 0u64);
+        for seed in 0..46u64 {
+            let v: Vec<Vec<f64>> = init_with_seed(255, 255, 5000 + seed);
+            for z in v.iter().flatten() {
+                cnt += 1;
+                s1 += z;
+                s2 += z * z;
+                s4 += z * z * z * z;
+                if z.abs() > 4.5 { far += 1; }
+            }
+        }
+        let nf = cnt as f64;
+        let (mean, var, kurt) = (s1 / nf, s2 / nf - (s1 / nf) * (s1 / nf), (s4 / nf) / ((s2 / nf) * (s2 / nf)));
+        if !(mean.abs() < 6.0 / nf.sqrt() && (var - 1.0).abs() < 6.0 * (2.0 / nf).sqrt() && (kurt - 3.0).abs() < 6.0 * (96.0 / nf).sqrt()) {
+            witness(format!("{{\"oracle\":\"c18\",\"entries\":{cnt},\"what\":\"mean {mean}, variance {var}, kurtosis {kurt} are not those of standard-normal draws\"}}"));
+        }
+        if far == 0 || far > 80 {
+            witness(format!("{{\"oracle\":\"c18\",\"entries\":{cnt},\"what\":\"{far} entries beyond 4.5 standard deviations (about 20 expected): the draws are not standard normal in the tails\"}}"));
         }
     }
 
@@ -2710,6 +2937,106 @@ mod explore {
                 let got = chain.step().clone();
                 if got != want {
                     witness(format!("{{\"oracle\":\"c01\",\"verif_seed\":{},\"round\":{r},\"step\":{step},\"k\":{k},\"lp\":\"{lp:?}\",\"lq\":\"{lq:?}\",\"x\":{x:?},\"y\":{y:?},\"u\":\"{u}\",\"got\":{got:?},\"want\":{want:?}}}", seed0()));
+                }
+            }
+        }
+    }
+    /// like `TabQ`, but proposes only among the first `span` states (the caller widens `span` during the run)
+    #[derive(Clone)]
+    struct SpanQ { k: usize, span: usize, lq: Vec<f64>, rng: SmallRng }
+    impl Proposal<i32, f64> for SpanQ {
+        fn sample(&mut self, _c: &[i32]) -> Vec<i32> { vec![self.rng.random_range(0..self.span as i32)] }
+        fn logp(&self, from: &[i32], to: &[i32]) -> f64 { self.lq[from[0].rem_euclid(self.k as i32) as usize * self.k + to[0].rem_euclid(self.k as i32) as usize] }
+        fn set_seed(mut self, s: u64) -> Self { self.rng = SmallRng::seed_from_u64(s); self }
+    }
+    /// C01 over long runs on one chain with interventions between steps: a proposal that is symmetric on part of the
+    /// state space only (so the Hastings correction matters only for some moves, possibly after a long symmetric
+    /// stretch), the public `target` re-tempered and the public `current_state` overwritten between steps
+    #[test]
+    fn oracle_c01_long_runs_with_interventions() {
+        for r in 0..rounds(24) as u64 {
+            let mut g = SmallRng::seed_from_u64(seed0().wrapping_mul(1_000_033).wrapping_add(r));
+            let k = g.random_range(3..6usize);
+            let lp: Vec<f64> = (0..k).map(|_| (g.random::<f64>() - 0.5) * 6.0).collect();
+            // symmetric among the states 0..k-1, asymmetric for every move to or from the last state
+            let mut lq = vec![0.0f64; k * k];
+            for a in 0..k {
+                for b in a..k {
+                    let v = -(g.random::<f64>() * 3.0);
+                    lq[a * k + b] = v;
+                    lq[b * k + a] = if b == k - 1 && a != b { v - 1.0 - g.random::<f64>() * 3.0 } else { v };
+                }
+            }
+            // the chain stays in the symmetric part for a long stretch first: the last state is not proposed before step 70
+            let mut chain: MHMarkovChain<i32, f64, _, _> = MHMarkovChain::new(Tab { lp: lp.clone() }, SpanQ { k, span: k - 1, lq: lq.clone(), rng: SmallRng::seed_from_u64(r + 11) }, vec![0]);
+            chain.rng = SmallRng::seed_from_u64(r ^ 0x51ed);
+            for step in 0..260usize {
+                if step == 70 {
+                    // from here on the asymmetric moves (to and from the last state) are proposed too
+                    chain.proposal.span = k;
+                }
+                match g.random_range(0..12u32) {
+                    0 | 1 => {
+                        // tempering / annealing: the target changes, the chain does not move
+                        let beta = 1.0 + 0.06 * (g.random::<f64>() - 0.3);
+                        for v in chain.target.lp.iter_mut() { *v *= beta; }
+                    }
+                    2 => {
+                        let i = g.random_range(0..k);
+                        chain.target.lp[i] = (g.random::<f64>() - 0.5) * 8.0;
+                    }
+                    3 if step > 70 => {
+                        chain.current_state[0] = g.random_range(0..k as i32);
+                    }
+                    _ => {}
+                }
+                let x = chain.current_state.clone();
+                let y = chain.proposal.clone().sample(&x);
+                let u: f64 = chain.rng.clone().random();
+                let t = chain.target.lp.clone();
+                let ratio = (t[y[0] as usize] + lq[y[0] as usize * k + x[0] as usize]) - (t[x[0] as usize] + lq[x[0] as usize * k + y[0] as usize]);
+                let want = if u.ln() < ratio { y.clone() } else { x.clone() };
+                let got = chain.step().clone();
+                if got != want {
+                    witness(format!("{{\"oracle\":\"c01\",\"verif_seed\":{},\"round\":{r},\"step\":{step},\"k\":{k},\"lp_now\":\"{t:?}\",\"lq\":\"{lq:?}\",\"x\":{x:?},\"y\":{y:?},\"u\":\"{u}\",\"got\":{got:?},\"want\":{want:?},\"what\":\"after {step} earlier steps on this chain (with the target re-tempered / the state overwritten in between) the move is not the MH rule for the target and state of this step\"}}", seed0()));
+                }
+            }
+        }
+    }
+    #[derive(Clone)]
+    struct LenT;
+    impl Target<i32, f64> for LenT {
+        fn unnorm_logp(&self, p: &[i32]) -> f64 { let l = p.len() as f64; -(l - 3.0) * (l - 3.0) * 0.4 + 0.01 * p.iter().map(|v| *v as f64).sum::<f64>() }
+    }
+    #[derive(Clone)]
+    struct BirthDeath { rng: SmallRng }
+    impl Proposal<i32, f64> for BirthDeath {
+        fn sample(&mut self, c: &[i32]) -> Vec<i32> {
+            let mut v = c.to_vec();
+            if c.len() <= 1 || self.rng.random::<f64>() < 0.5 { v.push(self.rng.random_range(0..9)); } else { v.pop(); }
+            v
+        }
+        fn logp(&self, from: &[i32], to: &[i32]) -> f64 {
+            if to.len() > from.len() { if from.len() <= 1 { (1.0f64 / 9.0).ln() } else { (0.5f64 / 9.0).ln() } } else { 0.5f64.ln() }
+        }
+        fn set_seed(mut self, s: u64) -> Self { self.rng = SmallRng::seed_from_u64(s); self }
+    }
+    /// C01 with proposals that change the LENGTH of the state (birth/death moves): the new state is exactly y or exactly x
+    #[test]
+    fn oracle_c01_state_length_changes() {
+        for r in 0..rounds(20) as u64 {
+            let mut chain: MHMarkovChain<i32, f64, _, _> = MHMarkovChain::new(LenT, BirthDeath { rng: SmallRng::seed_from_u64(seed0() ^ (r + 5)) }, vec![4, 1, 7]);
+            chain.rng = SmallRng::seed_from_u64(seed0().wrapping_add(r) ^ 0x77);
+            for step in 0..120usize {
+                let x = chain.current_state.clone();
+                let y = chain.proposal.clone().sample(&x);
+                let u: f64 = chain.rng.clone().random();
+                let q = chain.proposal.clone();
+                let ratio = (LenT.unnorm_logp(&y) + q.logp(&y, &x)) - (LenT.unnorm_logp(&x) + q.logp(&x, &y));
+                let want = if u.ln() < ratio { y.clone() } else { x.clone() };
+                let got = chain.step().clone();
+                if got != want {
+                    witness(format!("{{\"oracle\":\"c01\",\"verif_seed\":{},\"round\":{r},\"step\":{step},\"x\":{x:?},\"y\":{y:?},\"u\":\"{u}\",\"got\":{got:?},\"want\":{want:?},\"what\":\"with a proposal that changes the length of the state the new state is neither the proposal nor the old state as the MH rule dictates\"}}", seed0()));
                 }
             }
         }
